@@ -335,7 +335,19 @@ class SInterp(object):
             broke = False
             it_v = self.expr(st.iter, env)
             live = len(it_v) if isinstance(it_v, (dict, set)) else None
-            for x in self.iterate(it_v):
+            # a list is walked by position, live: an element removed during the walk makes the next one slip past
+            live_list = it_v if isinstance(it_v, list) else (it_v.attrs['_list'] if isinstance(it_v, Obj) and isinstance(it_v.attrs.get('_list'), list) and 'iter' in it_v.hooks else None)
+
+            def walk():
+                if live_list is None:
+                    for x_ in self.iterate(it_v):
+                        yield x_
+                    return
+                i_ = 0
+                while i_ < len(live_list):
+                    yield live_list[i_]
+                    i_ += 1
+            for x in walk():
                 self.tick()
                 if live is not None and len(it_v) != live:
                     raise Raised('RuntimeError')             # dictionary / set changed size during iteration
